@@ -140,6 +140,73 @@ func extTable(p *Prog, l *Ledger, rule, fname string) (map[string]string, bool, 
 			}
 		}
 	}
+	// the same dispatch written as a lookup table: a comma-ok lookup of a package-level map literal
+	// under the extension; a row's codec is what the function value stored for that key calls
+	if len(arms) == 0 {
+		for _, b := range fn.Blocks {
+			for _, ins := range b.Instrs {
+				lk, ok := ins.(*ssa.Lookup)
+				if !ok || !lk.CommaOk || !isExt(lk.Index) {
+					continue
+				}
+				u, ok := lk.X.(*ssa.UnOp)
+				if !ok {
+					continue
+				}
+				gl, ok := u.X.(*ssa.Global)
+				if !ok {
+					continue
+				}
+				mk, ok := p.globalInit(gl.Name()).(*ssa.MakeMap)
+				if !ok {
+					continue
+				}
+				tag = lk.Index
+				for _, r := range *mk.Referrers() {
+					mu, ok := r.(*ssa.MapUpdate)
+					if !ok {
+						continue
+					}
+					key, ok := constStr(mu.Key)
+					if !ok {
+						continue
+					}
+					var target *ssa.Function
+					switch v := mu.Value.(type) {
+					case *ssa.Function:
+						target = v
+					case *ssa.MakeClosure:
+						target, _ = v.Fn.(*ssa.Function)
+					case *ssa.ChangeType:
+						target, _ = v.X.(*ssa.Function)
+					}
+					if target == nil {
+						continue
+					}
+					arm := &caseArm{consts: []string{key}}
+					for _, cb := range target.Blocks {
+						for _, ci := range cb.Instrs {
+							if c, ok := ci.(ssa.CallInstruction); ok {
+								note(arm, c.Common().StaticCallee())
+							}
+						}
+					}
+				}
+				// the not-found edge of the lookup is the default
+				for _, r := range *lk.Referrers() {
+					ex, ok := r.(*ssa.Extract)
+					if !ok || ex.Index != 1 {
+						continue
+					}
+					for _, r2 := range *ex.Referrers() {
+						if iff, ok := r2.(*ssa.If); ok {
+							def = iff.Block().Succs[1]
+						}
+					}
+				}
+			}
+		}
+	}
 	// case-insensitive: the tag applies ToLower (or ToUpper) somewhere around filepath.Ext
 	_, lower := extExpr(p, tag, 0)
 	for _, ins := range caseSensitiveNameTests(p, fn) {
